@@ -51,6 +51,8 @@ func newScalarTable(inputSampleIDs []uint64, outputs []*model.Series, newAccumul
 }
 
 func (t *scalarTable) aggregate(arg float64, vector model.StepVector) {
+	// The output carries the time of the step, also when the step has no samples.
+	t.timestamp = vector.T
 	t.reset(arg)
 
 	for i := range vector.Samples {
